@@ -229,6 +229,9 @@ class Scheduler:
                     sticky = (want, n - 1) if n is not None and n > 1 else None
                     if n is None:
                         cur = want
+                        if not self.threads[want].fg:
+                            # a background thread chosen "until it blocks or ends"
+                            sticky = (want, 10 ** 9)
             if choice is None and sticky is not None:
                 tid, left = sticky
                 if tid in runnable:
@@ -450,7 +453,7 @@ def run_one(make, files, funcs, schedule, max_decisions=4000, keep_trace=False):
     return out
 
 
-def explore(make, files, funcs=None, max_preempt=1, bg_lens=(1, 4), max_decisions=4000, budget=None,
+def explore(make, files, funcs=None, max_preempt=1, bg_lens=(1, 4, 24), max_bg_preempt=1, max_decisions=4000, budget=None,
             deadline=None, max_points=None):
     """enumerate all schedules with <= max_preempt pre-emptions; yields (schedule, Outcome)"""
     count = [0]
@@ -475,6 +478,8 @@ def explore(make, files, funcs=None, max_preempt=1, bg_lens=(1, 4), max_decision
                     continue
                 # background threads: run for a bounded number of decision points; foreground: until blocked
                 is_fg = t in out.fg
+                if not is_fg and sum(1 for p in prefix if p[1] not in out.fg) >= max_bg_preempt:
+                    continue        # at most max_bg_preempt pre-emptions in favour of background threads
                 for ln in ((None,) if is_fg else bg_lens):
                     yield from rec(prefix + [(k, t, ln)])
     yield from rec([])
